@@ -145,21 +145,34 @@ def run(ctx):
                 node = add_child(node, cls, a, schema, types, mins)
             except Exception:
                 continue
-        doc = dc.from_nested(node)
-        label = "%s.<all-list-children>" % cls
-        e = dc.ev_doc("q%d" % nprobe, doc, schema, route="etree", label=label, expect="")
-        evs.append(e)
-        if e["out"]["ok"]:
-            from ofxtools.models.base import Aggregate
-            inst = Aggregate.from_etree(dc.to_etree(doc))
-            try:
-                doc2 = dc.etree_to_doc(inst.to_etree())
-                evs.append(dc.ev_doc("q%dw" % nprobe, doc2, schema, route="etree", label=label + " rewritten", expect="accept",
-                                     twin=e["out"]["inst"]))
-            except Exception as ex:
-                ctx.fail({"clause": "probe-write", "class": cls, "child": "<all-list-children>", "what": "to_etree failed for %s: %r" % (label, ex)})
+        # ... in declaration order, and with the members of every run of adjacent list children in reverse order
+        # (members of a run may come in any order; what the library writes from such an instance must read back)
+        ltags = {a["tag"] for a in attrs if a["k"] in ("lagg", "lelem")}
+        rev = copy.deepcopy(node)
+        kids, i = rev[2], 0
+        while i < len(kids):
+            j = i
+            while j < len(kids) and kids[j][0] in ltags:
+                j += 1
+            if j - i > 1:
+                kids[i:j] = kids[i:j][::-1]
+            i = max(j, i + 1)
+        for variant, vnode in (("", node), (" reversed", rev)):
+            doc = dc.from_nested(vnode)
+            label = "%s.<all-list-children%s>" % (cls, variant)
+            e = dc.ev_doc("q%d%s" % (nprobe, variant[1:2]), doc, schema, route="etree", label=label, expect="")
+            evs.append(e)
+            if e["out"]["ok"]:
+                from ofxtools.models.base import Aggregate
+                inst = Aggregate.from_etree(dc.to_etree(doc))
+                try:
+                    doc2 = dc.etree_to_doc(inst.to_etree())
+                    evs.append(dc.ev_doc("q%d%sw" % (nprobe, variant[1:2]), doc2, schema, route="etree", label=label + " rewritten", expect="accept",
+                                         twin=e["out"]["inst"]))
+                except Exception as ex:
+                    ctx.fail({"clause": "probe-write", "class": cls, "child": "<all-list-children>", "what": "to_etree failed for %s: %r" % (label, ex)})
+            ctx.nontrivial.add(label)
         nprobe += 1
-        ctx.nontrivial.add(label)
     ctx.extra["children_probed"] = nprobe
     ctx.exhaustive = True
     ctx.evaluations = len(evs)
